@@ -119,29 +119,27 @@ func c01Enumerate(tier string, emit func(j c01Job)) {
 		}
 		return out
 	}
-	// (0) arrival order vs event time: three (thorough: four) events whose timestamps come in every order, so that
-	// blocks and segments overlap in time or lie entirely before one another
+	// (0) arrival order vs event time: three (thorough: four) events with every assignment of three instants, so that
+	// blocks and segments overlap in time, touch at equal timestamps or lie entirely before one another
 	{
+		// every assignment of three instants to the events (orders and ties alike)
 		offs := []int64{0, 1000, 5000}
+		nev := 3
 		if tier == "thorough" {
-			offs = []int64{0, 1000, 5000, 5000}
+			nev = 4
 		}
 		var perms [][]int64
-		var rec func(cur []int64, used []bool)
-		rec = func(cur []int64, used []bool) {
-			if len(cur) == len(offs) {
+		var rec func(cur []int64)
+		rec = func(cur []int64) {
+			if len(cur) == nev {
 				perms = append(perms, append([]int64{}, cur...))
 				return
 			}
 			for i := range offs {
-				if !used[i] {
-					used[i] = true
-					rec(append(cur, offs[i]), used)
-					used[i] = false
-				}
+				rec(append(cur, offs[i]))
 			}
 		}
-		rec(nil, make([]bool, len(offs)))
+		rec(nil)
 		for _, pm := range perms {
 			evs := make([]string, len(pm))
 			for i, o := range pm {
@@ -351,6 +349,22 @@ func c01Run(w *kernel.Worker, j *c01Job, rep *kernel.Report) (*c01Result, error)
 			if clause, what := c01Check(model[:flushed], rs[k], &only); clause != "" {
 				return fail("point-"+clause, fmt.Sprintf("query id=e%d after step %d: %s", only, i, what)), nil
 			}
+		}
+		// the same match-all on one processor: the searcher then takes the blocks in several rounds instead of all at once
+		prev, err := setProcs(w, 1)
+		if err != nil {
+			return asDied(err)
+		}
+		r1, err := runQueries(w, qs[:1])
+		if _, rerr := setProcs(w, prev); rerr != nil && err == nil {
+			err = rerr
+		}
+		if err != nil {
+			return asDied(err)
+		}
+		rep.Eval(1)
+		if clause, what := c01Check(model[:flushed], r1[0], nil); clause != "" {
+			return fail(clause, fmt.Sprintf("after step %d (%s), on one processor: %s", i, op, what)), nil
 		}
 	}
 	if err := delIndex(w, 0, idx); err != nil {
